@@ -165,9 +165,10 @@ struct IoOps {
             // reload
             c.watchPath = p.c_str();
             if (fault == 2 && simdisk::linked()) { c.readMode = 1; c.readAt = bytes.empty() ? 0 : (long)modn(op.a, (unsigned)bytes.size() + 1); }
-            if (fault == 3 && simdisk::linked()) { c.readMode = 2; c.gran = 1 + (long)modn(op.b, 13); }
+            if (fault == 3 && simdisk::linked()) { c.readMode = 2; c.gran = 1 + (long)modn(op.b, 13); c.eintrEvery = (op.a & 1) ? 2 + (int)modn(op.a >> 1, 5) : 0; }
             const int mode = c.readMode;
             const long eioAt = c.readAt;
+            const long eintr0 = c.eintrs;
             bool threw = false;
             std::string what;
             std::unique_ptr<G> loaded;
@@ -190,7 +191,7 @@ struct IoOps {
                 return; // the run continues on the original object
             }
             if (threw) { r.mismatch(cat, "loader_threw_on_own_file", what); return; }
-            if (mode == 2) { ++r.faultsFired; r.res.faults.inc("short_read"); }
+            if (mode == 2) { ++r.faultsFired; r.res.faults.inc("short_read"); if (c.eintrs > eintr0) r.res.faults.inc("read_eintr"); }
             ++r.faultsFired;
             r.res.faults.inc(binary ? "persist_reload_binary" : "persist_reload_text");
             if (loaded->getSize() != fileEx.m.n)
